@@ -4,21 +4,20 @@
 //
 //	extract enumtables -out F.lean   — every `switch`-table conversion function of the per-key-type
 //	                                   protoserialization.go files as a list of (case, result) pairs
-//	extract slicefacts -out F.lean   — C19: per function, every write through / retention / return of a []byte parameter
-//	                                   (taint follows slicing, bytes.Trim*/Split*/Cut*/Fields, slices.Clip/Grow,
-//	                                   bytes.NewBuffer/NewReader, append(p[:k], …)), accessors returning a field, and results
-//	                                   that alias a pooled / global / receiver-held buffer (return-internal)
-//	extract mutfacts -out F.lean     — C18: stores through receivers, mutator calls on receiver-held stateful objects, stores to
-//	                                   package-level variables (also of other packages); package-level variables of sync.Pool /
-//	                                   sync.Map / mutex / atomic / channel type (global-var) and every method call on a
-//	                                   package-level variable (global-call), both owned by the variable; in-place rewrites of
-//	                                   map / slice fields (recv-inplace-write) and, for those fields, every hand-out
-//	                                   (recv-field-escape)
+//	extract slicefacts -out F.lean   — C19 (slice.go): entry-point summaries of what happens to the memory behind []byte
+//	                                   parameters — writes, appends, retention, escapes, results aliasing a parameter, a
+//	                                   receiver field or a pooled / package-level / receiver-held buffer
+//	extract mutfacts -out F.lean     — C18 (mut.go): entry-point summaries of writes after construction (receiver fields,
+//	                                   stateful objects held by the receiver, in-place rewrites and hand-outs of container
+//	                                   fields, package-level state) plus package-level variables / struct fields of
+//	                                   sync.Pool / sync.Map / mutex / atomic / channel type
 //
-// Run with cwd=/repo and the module's toolchain (GOFLAGS=-mod=mod GOPROXY=off, GOTOOLCHAIN unset: with GOTOOLCHAIN=local the
-// source importer cannot load the module's packages, go/types then knows standard-library types only and the type-dependent
-// facts — global-var, global-call, map/slice fields — silently disappear). enumtables refuses (exit 2) rather than guesses
-// when a function has the table shape but a non-constant cell.
+// The fact modes load the whole module (load.go), summarise every function by a fixpoint over the call graph and report
+// entry points only, in canonical form (no local or parameter names in the compared fields).
+// Run with cwd=/repo and the module's toolchain (GOFLAGS=-mod=mod GOPROXY=off, GOTOOLCHAIN unset). The fact modes refuse
+// (exit 2) when a package of the module does not load or type-check, or when no call site resolves to a function of the
+// module (with GOTOOLCHAIN=local the source importer cannot load the module's packages). enumtables refuses rather than
+// guesses when a function has the table shape but a non-constant cell.
 package main
 
 import (
@@ -243,6 +242,18 @@ func main() {
 		sliceFacts(out)
 	case "mutfacts":
 		mutFacts(out)
+	case "bothfacts":
+		// one load, both fact files (for trials): -out <slice facts> -out2 <mutation facts>
+		out2 := ""
+		for i, a := range os.Args {
+			if a == "-out2" && i+1 < len(os.Args) {
+				out2 = os.Args[i+1]
+			}
+		}
+		m := loadModule()
+		countResolved(m)
+		sliceFactsOf(m, out)
+		mutFactsOf(m, out2)
 	default:
 		die("unknown mode %s", os.Args[1])
 	}
@@ -251,11 +262,6 @@ func main() {
 // ---------------------------------------------------------------------------------------------
 // slicefacts / mutfacts: syntactic facts about writes through []byte parameters, retention of
 // parameter slices, exposure of field slices (C19) and post-construction writes through receivers (C18).
-
-// owner: explicit owner (name of the package-level variable for global-var / global-call facts); "" = derived from fn
-type fact struct{ pkg, fn, kind, what, owner string }
-
-func mkFact(pkg, fn, kind, what string) fact { return fact{pkg: pkg, fn: fn, kind: kind, what: what} }
 
 func rootIdent(e ast.Expr) *ast.Ident {
 	for {
@@ -325,115 +331,6 @@ func funcName(fd *ast.FuncDecl) string {
 		}
 	}
 	return fd.Name.Name
-}
-
-func loadAll(visit func(dir string, fset *token.FileSet, files []*ast.File, info *types.Info)) int {
-	var dirs []string
-	filepath.WalkDir(".", func(p string, d os.DirEntry, err error) error {
-		if err != nil {
-			return nil
-		}
-		if d.IsDir() {
-			n := d.Name()
-			if n == "testdata" || n == ".git" || n == "verifharness" || n == "proto" || n == "testing" || n == "testutil" || n == "testkeyset" ||
-				n == "testvectors" || strings.HasSuffix(n, "_go_proto") || n == "examples" || n == "docs" || n == "kokoro" || n == "tools" {
-				return filepath.SkipDir
-			}
-			dirs = append(dirs, p)
-		}
-		return nil
-	})
-	sort.Strings(dirs)
-	fset := token.NewFileSet()
-	imp := importer.ForCompiler(fset, "source", nil)
-	n := 0
-	for _, dir := range dirs {
-		entries, _ := os.ReadDir(dir)
-		var astFiles []*ast.File
-		for _, e := range entries {
-			nm := e.Name()
-			if !strings.HasSuffix(nm, ".go") || strings.HasSuffix(nm, "_test.go") || strings.Contains(nm, "_verif") {
-				continue
-			}
-			f, err := parser.ParseFile(fset, filepath.Join(dir, nm), nil, parser.SkipObjectResolution)
-			if err != nil {
-				die("%v", err)
-			}
-			if strings.HasSuffix(f.Name.Name, "_test") {
-				continue
-			}
-			astFiles = append(astFiles, f)
-		}
-		if len(astFiles) == 0 {
-			continue
-		}
-		info := &types.Info{Types: map[ast.Expr]types.TypeAndValue{}, Uses: map[*ast.Ident]types.Object{}, Defs: map[*ast.Ident]types.Object{},
-			Selections: map[*ast.SelectorExpr]*types.Selection{}}
-		conf := types.Config{Importer: imp, Error: func(err error) {}}
-		conf.Check(dir, fset, astFiles, info)
-		visit(dir, fset, astFiles, info)
-		n++
-	}
-	return n
-}
-
-func emitFacts(out, ns, doc string, facts []fact, npk int, withOwner bool) {
-	sort.Slice(facts, func(i, j int) bool {
-		a, b := facts[i], facts[j]
-		if a.pkg != b.pkg {
-			return a.pkg < b.pkg
-		}
-		if a.fn != b.fn {
-			return a.fn < b.fn
-		}
-		if a.kind != b.kind {
-			return a.kind < b.kind
-		}
-		if a.what != b.what {
-			return a.what < b.what
-		}
-		return a.owner < b.owner
-	})
-	var sb strings.Builder
-	sb.WriteString("/- GENERATED by /verif/go/harness/extract — do not edit; regenerated on every check run.\n   " + doc + " -/\n")
-	sb.WriteString("namespace " + ns + "\n\n")
-	if withOwner {
-		sb.WriteString("/-- `owner`: the receiver type of the method `fn`, or the function name for a plain function -/\n")
-		sb.WriteString("structure Fact where\n  pkg : String\n  fn : String\n  kind : String\n  what : String\n  owner : String\nderiving DecidableEq, Repr\n\n")
-	} else {
-		sb.WriteString("structure Fact where\n  pkg : String\n  fn : String\n  kind : String\n  what : String\nderiving DecidableEq, Repr\n\n")
-	}
-	sb.WriteString(fmt.Sprintf("def packagesScanned : Nat := %d\n\n", npk))
-	sb.WriteString("def facts : List Fact := [\n")
-	var prev fact
-	first := true
-	for _, f := range facts {
-		if !first && f == prev {
-			continue
-		}
-		if !first {
-			sb.WriteString(",\n")
-		}
-		first = false
-		prev = f
-		if withOwner {
-			owner := f.owner
-			if owner == "" {
-				owner = f.fn
-				if i := strings.Index(owner, "."); i >= 0 {
-					owner = owner[:i]
-				}
-			}
-			sb.WriteString(fmt.Sprintf("  ⟨%q, %q, %q, %q, %q⟩", f.pkg, f.fn, f.kind, f.what, owner))
-		} else {
-			sb.WriteString(fmt.Sprintf("  ⟨%q, %q, %q, %q⟩", f.pkg, f.fn, f.kind, f.what))
-		}
-	}
-	sb.WriteString("\n]\n\nend " + ns + "\n")
-	if err := os.WriteFile(out, []byte(sb.String()), 0o644); err != nil {
-		die("%v", err)
-	}
-	fmt.Printf("%s: %d packages, %d facts\n", ns, npk, len(facts))
 }
 
 // viewFuncs: functions of package bytes / slices whose result is (or holds) a sub-slice of their first argument:
@@ -561,442 +458,6 @@ func stripToBase(e ast.Expr) ast.Expr {
 	}
 }
 
-// sliceFacts (C19)
-func sliceFacts(out string) {
-	var facts []fact
-	npk := loadAll(func(dir string, fset *token.FileSet, files []*ast.File, info *types.Info) {
-		globals := pkgLevelVars(files, info)
-		isGlobal := func(id *ast.Ident) bool {
-			o := info.Uses[id]
-			return o != nil && globals[o]
-		}
-		isPkg := func(e ast.Expr, paths ...string) bool {
-			id, ok := e.(*ast.Ident)
-			if !ok {
-				return false
-			}
-			pn, ok := info.Uses[id].(*types.PkgName)
-			if !ok {
-				return false
-			}
-			for _, p := range paths {
-				if pn.Imported().Path() == p {
-					return true
-				}
-			}
-			return false
-		}
-		for _, f := range files {
-			for _, d := range f.Decls {
-				fd, ok := d.(*ast.FuncDecl)
-				if !ok || fd.Body == nil {
-					continue
-				}
-				params := map[string]bool{}
-				if fd.Type.Params != nil {
-					for _, p := range fd.Type.Params.List {
-						tv, ok := info.Types[p.Type]
-						if !ok || !isByteSlice(tv.Type) {
-							continue
-						}
-						for _, n := range p.Names {
-							params[n.Name] = true
-						}
-					}
-				}
-				recv := ""
-				if fd.Recv != nil && len(fd.Recv.List) == 1 && len(fd.Recv.List[0].Names) == 1 {
-					recv = fd.Recv.List[0].Names[0].Name
-				}
-				fn := funcName(fd)
-				// locals that alias a parameter by plain (re)slicing: x := p / x := p[a:b]
-				alias := map[string]string{}
-				// locals that are a bytes.Buffer built over a parameter: buf := bytes.NewBuffer(p)
-				bufOver := map[string]string{}
-				// a parameter that is reassigned from a call (p = bytes.Clone(p), p = slices.Clone(p), …) no longer
-				// denotes caller memory (flow-insensitive: any such reassignment in the body)
-				ast.Inspect(fd.Body, func(n ast.Node) bool {
-					as, ok := n.(*ast.AssignStmt)
-					if !ok || as.Tok != token.ASSIGN || len(as.Lhs) != len(as.Rhs) {
-						return true
-					}
-					for i, lhs := range as.Lhs {
-						if id, ok := lhs.(*ast.Ident); ok && params[id.Name] {
-							if ce, ok := as.Rhs[i].(*ast.CallExpr); ok {
-								if se, ok := ce.Fun.(*ast.SelectorExpr); ok && se.Sel.Name == "Clone" {
-									delete(params, id.Name)
-								}
-							}
-						}
-					}
-					return true
-				})
-				// every parameter name (any type): a []byte field of a struct-typed parameter (options structs)
-				// is caller memory as well
-				allParams := map[string]bool{}
-				if fd.Type.Params != nil {
-					for _, p := range fd.Type.Params.List {
-						for _, n := range p.Names {
-							allParams[n.Name] = true
-						}
-					}
-				}
-				var isParam func(e ast.Expr) (string, bool)
-				// viewCall: bytes.TrimLeft(p, …), bytes.Split(p, …), slices.Clip(p), bytes.NewBuffer(p), bytes.NewReader(p):
-				// the result is (or holds) a sub-slice of p;  append(p[:0], …) may be one (it is when the result fits),
-				// append(p[:0:0], …) / append(p[:n:n], …) is a copy
-				viewCall := func(ce *ast.CallExpr) (string, bool) {
-					if len(ce.Args) == 0 {
-						return "", false
-					}
-					if id, ok := ce.Fun.(*ast.Ident); ok && id.Name == "append" {
-						if fullSlice3(ce.Args[0]) {
-							return "", false
-						}
-						return isParam(ce.Args[0])
-					}
-					if sel, ok := ce.Fun.(*ast.SelectorExpr); ok && viewFuncs[sel.Sel.Name] && isPkg(sel.X, "bytes", "slices") {
-						return isParam(ce.Args[0])
-					}
-					return "", false
-				}
-				isParam = func(e ast.Expr) (string, bool) {
-					// opts.Field / opts.Field[a:b] with opts a parameter and the selected value a []byte
-					inner := e
-					for {
-						if se, ok := inner.(*ast.SliceExpr); ok {
-							inner = se.X
-							continue
-						}
-						if pe, ok := inner.(*ast.ParenExpr); ok {
-							inner = pe.X
-							continue
-						}
-						if ie, ok := inner.(*ast.IndexExpr); ok {
-							// element of a [][]byte view: bytes.Split(p, sep)[0]
-							if _, isCall := ie.X.(*ast.CallExpr); isCall {
-								inner = ie.X
-								continue
-							}
-						}
-						break
-					}
-					if ce, ok := inner.(*ast.CallExpr); ok {
-						return viewCall(ce)
-					}
-					if sel, ok := inner.(*ast.SelectorExpr); ok {
-						if id, ok := sel.X.(*ast.Ident); ok && allParams[id.Name] && (recv == "" || id.Name != recv) {
-							if tv, ok := info.Types[sel]; ok && isByteSlice(tv.Type) {
-								return id.Name + "." + sel.Sel.Name, true
-							}
-						}
-					}
-					id := rootIdent(e)
-					if id == nil {
-						return "", false
-					}
-					if params[id.Name] {
-						return id.Name, true
-					}
-					if p, ok := alias[id.Name]; ok {
-						return p, true
-					}
-					return "", false
-				}
-				// viewExpr: an expression that may carry caller memory by value: identifier, slicing, field selection, or one
-				// of the slice-preserving calls
-				viewExpr := func(e ast.Expr) (string, bool) {
-					switch r := e.(type) {
-					case *ast.Ident, *ast.SliceExpr, *ast.SelectorExpr:
-						return isParam(r)
-					case *ast.CallExpr:
-						return viewCall(r)
-					case *ast.IndexExpr:
-						if tv, ok := info.Types[e]; ok && isByteSlice(tv.Type) {
-							return isParam(r)
-						}
-					}
-					return "", false
-				}
-				// objects that are library state or shared between calls: locals bound to a value taken from a package-level
-				// variable (pool.Get(), global, &global) or to a receiver field
-				internal := map[string]string{}
-				originOf := func(e ast.Expr) (string, bool) {
-					b := stripToBase(e)
-					switch x := b.(type) {
-					case *ast.CallExpr:
-						if sel, ok := x.Fun.(*ast.SelectorExpr); ok {
-							if id, ok := stripToBase(sel.X).(*ast.Ident); ok && isGlobal(id) {
-								return id.Name + "." + sel.Sel.Name + "()", true
-							}
-							// r.pool.Get(): a container kept in the receiver
-							if fs, ok := stripToBase(sel.X).(*ast.SelectorExpr); ok && recv != "" && (sel.Sel.Name == "Get" || sel.Sel.Name == "Load") {
-								if id, ok := fs.X.(*ast.Ident); ok && id.Name == recv {
-									return recv + "." + fs.Sel.Name + "." + sel.Sel.Name + "()", true
-								}
-							}
-						}
-					case *ast.Ident:
-						if isGlobal(x) {
-							return x.Name, true
-						}
-						if o, ok := internal[x.Name]; ok {
-							return o, true
-						}
-					case *ast.SelectorExpr:
-						if id, ok := x.X.(*ast.Ident); ok && recv != "" && id.Name == recv {
-							return recv + "." + x.Sel.Name, true
-						}
-					}
-					return "", false
-				}
-				ast.Inspect(fd.Body, func(n ast.Node) bool {
-					as, ok := n.(*ast.AssignStmt)
-					if !ok || len(as.Lhs) < 1 || len(as.Rhs) < 1 {
-						return true
-					}
-					for i, lhs := range as.Lhs {
-						id, ok := lhs.(*ast.Ident)
-						if !ok || id.Name == "_" {
-							continue
-						}
-						var rhs ast.Expr
-						if len(as.Lhs) == len(as.Rhs) {
-							rhs = as.Rhs[i]
-						} else if i == 0 {
-							rhs = as.Rhs[0] // v, ok := pool.Get().(*T)
-						} else {
-							continue
-						}
-						var t types.Type
-						if o := info.Defs[id]; o != nil {
-							t = o.Type()
-						} else if o := info.Uses[id]; o != nil {
-							t = o.Type()
-						}
-						if !byteBacked(t) {
-							continue
-						}
-						if _, isSel := stripToBase(rhs).(*ast.SelectorExpr); isSel {
-							// a copy of a receiver's array field (x := r.arr) is a value, not a view
-							if _, isArr := t.Underlying().(*types.Array); isArr {
-								continue
-							}
-							if isBytesBuffer(t) && t.String() == "bytes.Buffer" {
-								continue
-							}
-						}
-						if o, ok := originOf(rhs); ok {
-							internal[id.Name] = o
-						}
-					}
-					return true
-				})
-				ast.Inspect(fd.Body, func(n ast.Node) bool {
-					switch x := n.(type) {
-					case *ast.RangeStmt:
-						// for _, part := range bytes.Split(p, sep)
-						if id, ok := x.Value.(*ast.Ident); ok && id.Name != "_" {
-							if tv, ok := info.Types[x.X]; ok && tv.Type != nil {
-								if sl, ok := tv.Type.Underlying().(*types.Slice); ok && isByteSlice(sl.Elem()) {
-									if p, ok := viewExpr(x.X); ok {
-										alias[id.Name] = p
-									}
-								}
-							}
-						}
-					case *ast.AssignStmt:
-						// before, after, found := bytes.Cut(p, sep)
-						if len(x.Rhs) == 1 && len(x.Lhs) > 1 {
-							if ce, ok := x.Rhs[0].(*ast.CallExpr); ok {
-								if p, ok := viewCall(ce); ok {
-									for _, lhs := range x.Lhs {
-										if id, ok := lhs.(*ast.Ident); ok && id.Name != "_" && !params[id.Name] {
-											var t types.Type
-											if o := info.Defs[id]; o != nil {
-												t = o.Type()
-											} else if o := info.Uses[id]; o != nil {
-												t = o.Type()
-											}
-											if isByteSlice(t) {
-												alias[id.Name] = p
-											}
-										}
-									}
-								}
-							}
-						}
-						for i, lhs := range x.Lhs {
-							// element store p[i] = v, p[i] op= v
-							if ix, ok := lhs.(*ast.IndexExpr); ok {
-								if p, ok := isParam(ix.X); ok {
-									facts = append(facts, mkFact(dir, fn, "store-to-param", p))
-								}
-							}
-							if i < len(x.Rhs) && len(x.Lhs) == len(x.Rhs) {
-								rhs := x.Rhs[i]
-								// alias tracking
-								if id, ok := lhs.(*ast.Ident); ok {
-									if p, ok := viewExpr(rhs); ok && !params[id.Name] {
-										alias[id.Name] = p
-										if ce, ok := rhs.(*ast.CallExpr); ok {
-											if sel, ok := ce.Fun.(*ast.SelectorExpr); ok && sel.Sel.Name == "NewBuffer" {
-												bufOver[id.Name] = p
-											}
-										}
-									}
-								}
-								// retention: x.f = p  (direct, without Clone)
-								if sel, ok := lhs.(*ast.SelectorExpr); ok {
-									if p, ok := viewExpr(rhs); ok {
-										facts = append(facts, mkFact(dir, fn, "retain-param", exprName(sel.X)+"."+sel.Sel.Name+"="+p))
-									}
-								}
-							}
-						}
-					case *ast.CallExpr:
-						if id, ok := x.Fun.(*ast.Ident); ok && len(x.Args) > 0 {
-							switch id.Name {
-							case "append":
-								if p, ok := isParam(x.Args[0]); ok {
-									// append(p[:0:0], …) / append(p[:n:n], …) cannot write p
-									if fullSlice3(x.Args[0]) {
-										break
-									}
-									facts = append(facts, mkFact(dir, fn, "append-to-param", p))
-								}
-							case "copy":
-								if p, ok := isParam(x.Args[0]); ok {
-									facts = append(facts, mkFact(dir, fn, "copy-into-param", p))
-								}
-							case "clear":
-								if p, ok := isParam(x.Args[0]); ok {
-									facts = append(facts, mkFact(dir, fn, "store-to-param", p))
-								}
-							}
-						}
-						if sel, ok := x.Fun.(*ast.SelectorExpr); ok && len(x.Args) > 0 {
-							nm := sel.Sel.Name
-							// handing a parameter slice to a container that outlives the call (sync.Map, sync.Pool and friends)
-							if nm == "Store" || nm == "LoadOrStore" || nm == "Swap" || nm == "CompareAndSwap" || nm == "Put" {
-								for _, a := range x.Args {
-									if ue, ok := a.(*ast.UnaryExpr); ok && ue.Op == token.AND {
-										a = ue.X
-									}
-									if p, ok := viewExpr(a); ok {
-										facts = append(facts, mkFact(dir, fn, "escape-param", exprName(sel.X)+"."+nm+"("+p+")"))
-									}
-								}
-							}
-							// stdlib-style destination-first writers
-							if nm == "XORBytes" || nm == "XORKeyStream" || nm == "Encrypt" && false || nm == "CryptBlocks" || nm == "PutUint32" || nm == "PutUint64" || nm == "PutUint16" || nm == "Read" || nm == "ReadFull" || nm == "FillBytes" {
-								idx := 0
-								if nm == "ReadFull" {
-									idx = 1
-								}
-								if idx < len(x.Args) {
-									if p, ok := isParam(x.Args[idx]); ok {
-										facts = append(facts, mkFact(dir, fn, "write-into-param", nm+":"+p))
-									}
-								}
-							}
-							// Seal/Open(dst, …) with dst = p[:0] style reuse of the caller's buffer
-							if (nm == "Seal" || nm == "Open") && len(x.Args) >= 1 {
-								if p, ok := isParam(x.Args[0]); ok {
-									facts = append(facts, mkFact(dir, fn, "aead-dst-param", nm+":"+p))
-								}
-							}
-						}
-						// buf := bytes.NewBuffer(p); buf.Write(…) appends into p's spare capacity
-						if sel, ok := x.Fun.(*ast.SelectorExpr); ok {
-							if id, ok := sel.X.(*ast.Ident); ok {
-								if p, ok := bufOver[id.Name]; ok && strings.HasPrefix(sel.Sel.Name, "Write") {
-									facts = append(facts, mkFact(dir, fn, "append-to-param", p+" (bytes.Buffer."+sel.Sel.Name+")"))
-								}
-							}
-						}
-					case *ast.CompositeLit:
-						for i, el := range x.Elts {
-							kv, ok := el.(*ast.KeyValueExpr)
-							if !ok {
-								// unkeyed element: T{p, …} / [2][]byte{p, x}
-								if p, ok := viewExpr(el); ok {
-									facts = append(facts, mkFact(dir, fn, "retain-param", fmt.Sprintf("%s{#%d}=%s", exprName(x.Type), i, p)))
-								}
-								continue
-							}
-							if p, ok := viewExpr(kv.Value); ok {
-								facts = append(facts, mkFact(dir, fn, "retain-param", exprName(x.Type)+"{"+exprName(kv.Key)+"}="+p))
-							}
-						}
-					case *ast.ReturnStmt:
-						for _, r := range x.Results {
-							// exposure: return recv.f where f is a []byte field (no Clone)
-							if sel, ok := r.(*ast.SelectorExpr); ok && recv != "" {
-								if id, ok := sel.X.(*ast.Ident); ok && id.Name == recv {
-									if tv, ok := info.Types[r]; ok && isByteSlice(tv.Type) {
-										facts = append(facts, mkFact(dir, fn, "return-field", sel.Sel.Name))
-									}
-								}
-							}
-							// returning the parameter itself (result aliases input)
-							switch rr := r.(type) {
-							case *ast.Ident, *ast.SliceExpr, *ast.CallExpr:
-								if p, ok := viewExpr(rr); ok {
-									if _, isCall := rr.(*ast.CallExpr); isCall {
-										p += " (via " + exprString(rr.(*ast.CallExpr).Fun) + ")"
-									}
-									facts = append(facts, mkFact(dir, fn, "return-param", p))
-								}
-							}
-							// returning memory that stays reachable by the library: x.Bytes() of a bytes.Buffer, or a slice of a
-							// buffer / array, that came from a package-level variable (sync.Pool.Get(), global) or is a receiver field
-							if tv, ok := info.Types[r]; !ok || !isByteSlice(tv.Type) {
-								continue
-							}
-							inner := r
-							for {
-								if se, ok := inner.(*ast.SliceExpr); ok {
-									inner = se.X
-									continue
-								}
-								if pe, ok := inner.(*ast.ParenExpr); ok {
-									inner = pe.X
-									continue
-								}
-								break
-							}
-							if ce, ok := inner.(*ast.CallExpr); ok {
-								if sel, ok := ce.Fun.(*ast.SelectorExpr); ok && (sel.Sel.Name == "Bytes" || sel.Sel.Name == "Next" || sel.Sel.Name == "AvailableBuffer") {
-									if tv, ok := info.Types[sel.X]; ok && isBytesBuffer(tv.Type) {
-										if o, ok := originOf(sel.X); ok {
-											facts = append(facts, mkFact(dir, fn, "return-internal", exprString(r)+" <- "+o))
-										}
-									}
-								}
-								continue
-							}
-							if _, direct := r.(*ast.SelectorExpr); direct {
-								continue // return recv.f: the return-field fact above
-							}
-							if id, ok := r.(*ast.Ident); ok {
-								if _, isParamView := isParam(id); isParamView {
-									continue
-								}
-							}
-							if o, ok := originOf(inner); ok {
-								facts = append(facts, mkFact(dir, fn, "return-internal", exprString(r)+" <- "+o))
-							}
-						}
-					}
-					return true
-				})
-			}
-		}
-	})
-	emitFacts(out, "TinkVerif.Gen.SliceFacts", "Syntactic facts about []byte parameters: writes through them, retention, exposure (C19).", facts, npk, false)
-}
-
 // syncCategory: "" unless t is or contains (through struct fields, pointers, arrays) a type of package sync / sync/atomic
 // or a channel.
 func syncCategory(t types.Type, seen map[types.Type]bool, depth int) string {
@@ -1084,382 +545,7 @@ var inPlaceFuncs = map[string]bool{"Copy": true, "DeleteFunc": true, "Delete": t
 
 // readOnlyFuncs: callees that do not keep their argument (the result is a copy or a scalar)
 var readOnlyFuncs = map[string]bool{"len": true, "cap": true, "Clone": true, "Equal": true, "Compare": true, "Contains": true, "Index": true,
-	"ConstantTimeCompare": true, "Keys": true, "Values": true, "EncodeToString": true, "Sprintf": true, "Errorf": true, "min": true, "max": true}
-
-// mutFacts (C18): writes through method receivers and to package-level variables.
-func mutFacts(out string) {
-	var facts []fact
-	statefulIface := map[string]bool{"hash.Hash": true, "hash.Hash32": true, "hash.Hash64": true, "crypto/cipher.Stream": true, "crypto/cipher.BlockMode": true,
-		"io.Reader": true, "io.Writer": true, "io.ReadWriter": true, "io.ReadCloser": true, "io.WriteCloser": true, "io.ByteReader": true,
-		"golang.org/x/crypto/sha3.ShakeHash": true, "crypto/sha3.SHAKE": true, "*crypto/sha3.SHAKE": true}
-	statefulPtr := map[string]bool{"*bytes.Buffer": true, "bytes.Buffer": true, "*math/big.Int": true, "*strings.Builder": true, "strings.Builder": true,
-		"*bufio.Reader": true, "*bufio.Writer": true, "*bytes.Reader": true}
-	pureMethods := map[string]bool{"Size": true, "BlockSize": true, "Len": true, "Cap": true, "String": true, "Bytes": true, "Cmp": true, "Sign": true,
-		"BitLen": true, "IsInt64": true, "Int64": true, "Uint64": true, "FillBytes": true, "Text": true, "Bit": true, "ProbablyPrime": true}
-	npk := loadAll(func(dir string, fset *token.FileSet, files []*ast.File, info *types.Info) {
-		// package-level variables
-		globals := pkgLevelVars(files, info)
-		// every package-level variable whose type is (or contains) a synchronisation / recycling container: sync.Pool,
-		// sync.Map, mutexes, sync.Once, atomics, channels — state that is shared between all users of the package by design
-		for o := range globals {
-			if cat := syncCategory(o.Type(), map[types.Type]bool{}, 0); cat != "" {
-				facts = append(facts, fact{pkg: dir, fn: o.Name(), kind: "global-var", what: cat + " : " + shortType(o.Type()), owner: o.Name()})
-			}
-		}
-		// the same for struct fields of the package's own types (a pool / cache / lock kept per object is shared by every
-		// goroutine that uses the object)
-		for _, f := range files {
-			for _, d := range f.Decls {
-				gd, ok := d.(*ast.GenDecl)
-				if !ok || gd.Tok != token.TYPE {
-					continue
-				}
-				for _, sp := range gd.Specs {
-					ts := sp.(*ast.TypeSpec)
-					st, ok := ts.Type.(*ast.StructType)
-					if !ok || st.Fields == nil {
-						continue
-					}
-					for _, fld := range st.Fields.List {
-						tv, ok := info.Types[fld.Type]
-						if !ok || tv.Type == nil {
-							continue
-						}
-						// the field's own type (or pointer / array of it) is a sync / atomic type or a channel: structs of other
-						// packages are not searched (every proto message embeds a mutex)
-						cat := syncCategory(tv.Type, map[types.Type]bool{}, 6)
-						if cat == "" {
-							if p, ok := tv.Type.Underlying().(*types.Pointer); ok {
-								cat = syncCategory(p.Elem(), map[types.Type]bool{}, 6)
-							} else if a, ok := tv.Type.Underlying().(*types.Array); ok {
-								cat = syncCategory(a.Elem(), map[types.Type]bool{}, 6)
-							}
-						}
-						if cat == "" {
-							continue
-						}
-						names := []string{exprString(fld.Type)}
-						if len(fld.Names) > 0 {
-							names = names[:0]
-							for _, n := range fld.Names {
-								names = append(names, n.Name)
-							}
-						}
-						for _, n := range names {
-							facts = append(facts, fact{pkg: dir, fn: ts.Name.Name, kind: "field-var", what: n + " : " + cat + " : " + shortType(tv.Type), owner: ts.Name.Name})
-						}
-					}
-				}
-			}
-		}
-		// fields (map / slice typed) of receiver types that some method writes in place: the facts about where those
-		// fields are handed to other code (recv-field-escape) are emitted for these only
-		inPlace := map[string]bool{} // "Type.field"
-		var escapes []fact
-		for _, f := range files {
-			for _, d := range f.Decls {
-				fd, ok := d.(*ast.FuncDecl)
-				if !ok || fd.Body == nil {
-					continue
-				}
-				recv := ""
-				if fd.Recv != nil && len(fd.Recv.List) == 1 && len(fd.Recv.List[0].Names) == 1 {
-					recv = fd.Recv.List[0].Names[0].Name
-				}
-				fn := funcName(fd)
-				isInit := fd.Recv == nil && fd.Name.Name == "init"
-				// locals that alias receiver-held mutable objects: x := r.f / x := r.f[a:b] with f a slice, map,
-				// pointer or stateful interface
-				alias := map[string]string{}
-				if recv != "" {
-					ast.Inspect(fd.Body, func(n ast.Node) bool {
-						as, ok := n.(*ast.AssignStmt)
-						if !ok || len(as.Lhs) != len(as.Rhs) {
-							return true
-						}
-						for i, lhs := range as.Lhs {
-							id, ok := lhs.(*ast.Ident)
-							if !ok || id.Name == "_" {
-								continue
-							}
-							if _, isCall := as.Rhs[i].(*ast.CallExpr); isCall {
-								continue
-							}
-							rid, fld := rootSel(as.Rhs[i])
-							if rid == nil || rid.Name != recv {
-								continue
-							}
-							tv, ok := info.Types[as.Rhs[i]]
-							if !ok || tv.Type == nil {
-								continue
-							}
-							switch tv.Type.Underlying().(type) {
-							case *types.Slice, *types.Map, *types.Pointer, *types.Interface:
-								alias[id.Name] = fld
-							}
-						}
-						return true
-					})
-				}
-				lhsFact := func(lhs ast.Expr) {
-					if recv != "" {
-						if id, fld := rootSel(lhs); id != nil && id.Name == recv {
-							facts = append(facts, mkFact(dir, fn, "recv-store", fld))
-							return
-						}
-						// element / field store through an alias of a receiver-held object (not rebinding the alias itself)
-						if _, plain := lhs.(*ast.Ident); !plain {
-							root := rootIdent(lhs)
-							if root == nil {
-								root, _ = rootSel(lhs)
-							}
-							if root != nil {
-								if fld, ok := alias[root.Name]; ok {
-									facts = append(facts, mkFact(dir, fn, "recv-store", fld+" (via "+root.Name+")"))
-									return
-								}
-							}
-						}
-					}
-					if !isInit {
-						var root *ast.Ident
-						switch x := lhs.(type) {
-						case *ast.Ident:
-							root = x
-						default:
-							root = rootIdent(lhs)
-							if root == nil {
-								if id, _ := rootSel(lhs); id != nil {
-									root = id
-								}
-							}
-						}
-						if root != nil {
-							if o := info.Uses[root]; o != nil && globals[o] {
-								facts = append(facts, mkFact(dir, fn, "global-store", root.Name))
-							} else if _, isPkg := o.(*types.PkgName); isPkg {
-								// otherpkg.Var = v / otherpkg.Var[k] = v
-								if v := pkgVarOf(info, lhs); v != nil {
-									facts = append(facts, mkFact(dir, fn, "global-store", root.Name+"."+v.Name()))
-								}
-							}
-						}
-					}
-				}
-				owner := fn
-				if i := strings.Index(owner, "."); i >= 0 {
-					owner = owner[:i]
-				}
-				// fieldOf: (field, true) when e is r.f / r.f[a:b] / (r.f) with r the receiver, or a local alias of one, and the
-				// value is a map or a slice
-				fieldOf := func(e ast.Expr, allowSlicing bool) (string, bool) {
-					if recv == "" {
-						return "", false
-					}
-					tv, ok := info.Types[e]
-					if !ok || tv.Type == nil {
-						return "", false
-					}
-					switch tv.Type.Underlying().(type) {
-					case *types.Map, *types.Slice:
-					default:
-						return "", false
-					}
-					inner := e
-					for {
-						if pe, ok := inner.(*ast.ParenExpr); ok {
-							inner = pe.X
-							continue
-						}
-						if se, ok := inner.(*ast.SliceExpr); ok && allowSlicing {
-							inner = se.X
-							continue
-						}
-						break
-					}
-					switch x := inner.(type) {
-					case *ast.SelectorExpr:
-						if id, ok := x.X.(*ast.Ident); ok && id.Name == recv {
-							return x.Sel.Name, true
-						}
-					case *ast.Ident:
-						if fld, ok := alias[x.Name]; ok {
-							return fld, true
-						}
-					}
-					return "", false
-				}
-				inPlaceWrite := func(e ast.Expr, form string) {
-					if fld, ok := fieldOf(e, true); ok {
-						inPlace[owner+"."+fld] = true
-						facts = append(facts, mkFact(dir, fn, "recv-inplace-write", fld+" : "+form))
-					}
-				}
-				escape := func(e ast.Expr, form string) {
-					if fld, ok := fieldOf(e, true); ok {
-						escapes = append(escapes, fact{pkg: dir, fn: fn, kind: "recv-field-escape", what: fld + " : " + form, owner: owner + "." + fld})
-					}
-				}
-				ast.Inspect(fd.Body, func(n ast.Node) bool {
-					switch x := n.(type) {
-					case *ast.AssignStmt:
-						for i, lhs := range x.Lhs {
-							// r.f[k] = v with f a map or a slice: the object every holder of r.f sees is rewritten
-							if ix, ok := lhs.(*ast.IndexExpr); ok {
-								inPlaceWrite(ix.X, "index-store")
-							}
-							// other.g = r.f
-							if sel, ok := lhs.(*ast.SelectorExpr); ok && len(x.Lhs) == len(x.Rhs) {
-								if rid, _ := rootSel(sel); rid == nil || rid.Name != recv {
-									escape(x.Rhs[i], "stored-into "+exprString(lhs))
-								}
-							}
-						}
-						if x.Tok == token.DEFINE {
-							break
-						}
-						for _, lhs := range x.Lhs {
-							lhsFact(lhs)
-						}
-					case *ast.IncDecStmt:
-						lhsFact(x.X)
-						if ix, ok := x.X.(*ast.IndexExpr); ok {
-							inPlaceWrite(ix.X, "index-store")
-						}
-					case *ast.ReturnStmt:
-						for _, r := range x.Results {
-							escape(r, "returned")
-						}
-					case *ast.CompositeLit:
-						for _, el := range x.Elts {
-							if kv, ok := el.(*ast.KeyValueExpr); ok {
-								el = kv.Value
-							}
-							escape(el, "stored-into "+exprString(x.Type)+"{}")
-						}
-					case *ast.CallExpr:
-						// in-place rewriting builtins / library functions, and arguments handed to other code
-						calleeName := ""
-						switch f := x.Fun.(type) {
-						case *ast.Ident:
-							calleeName = f.Name
-						case *ast.SelectorExpr:
-							calleeName = f.Sel.Name
-						}
-						if id, ok := x.Fun.(*ast.Ident); ok && len(x.Args) > 0 {
-							switch id.Name {
-							case "clear", "delete", "copy":
-								inPlaceWrite(x.Args[0], id.Name)
-							case "append":
-								if se, ok := x.Args[0].(*ast.SliceExpr); ok && !fullSlice3(se) {
-									inPlaceWrite(se, "append-to-reslice")
-								}
-							}
-						}
-						if sel, ok := x.Fun.(*ast.SelectorExpr); ok && len(x.Args) > 0 && inPlaceFuncs[sel.Sel.Name] {
-							if pid, ok := sel.X.(*ast.Ident); ok {
-								if pn, ok := info.Uses[pid].(*types.PkgName); ok {
-									switch pn.Imported().Path() {
-									case "maps", "slices", "sort":
-										inPlaceWrite(x.Args[0], pn.Imported().Path()+"."+sel.Sel.Name)
-									}
-								}
-							}
-						}
-						if _, isConv := info.Types[x.Fun]; !(isConv && info.Types[x.Fun].IsType()) && !readOnlyFuncs[calleeName] {
-							for ai, a := range x.Args {
-								switch calleeName {
-								case "clear", "delete":
-									continue
-								case "copy":
-									continue // copy(dst, r.f) reads; copy(r.f, src) is the in-place write above
-								case "append":
-									if ai > 0 && x.Ellipsis.IsValid() {
-										continue // append(x, r.f...) copies the elements
-									}
-									if ai == 0 {
-										continue // r.f = append(r.f, …): growth of the own field
-									}
-								}
-								escape(a, "passed-to "+exprString(x.Fun))
-							}
-						}
-						// any method call on a package-level variable outside init
-						if sel, ok := x.Fun.(*ast.SelectorExpr); ok && !isInit {
-							var root *ast.Ident
-							if id, ok := sel.X.(*ast.Ident); ok {
-								root = id
-							} else if rid, _ := rootSel(sel.X); rid != nil {
-								root = rid
-							}
-							if root != nil {
-								if o := info.Uses[root]; o != nil && globals[o] {
-									if _, isMethod := info.Selections[sel]; isMethod && o.Type().String() != "error" {
-										facts = append(facts, fact{pkg: dir, fn: fn, kind: "global-call", what: exprString(sel.X) + "." + sel.Sel.Name + " : " + shortType(o.Type()), owner: root.Name})
-									}
-								}
-							}
-						}
-						// copy(r.f[...], …)
-						if id, ok := x.Fun.(*ast.Ident); ok && id.Name == "copy" && len(x.Args) == 2 && recv != "" {
-							if rid, fld := rootSel(x.Args[0]); rid != nil && rid.Name == recv {
-								facts = append(facts, mkFact(dir, fn, "recv-store", fld+" (copy)"))
-							} else if root := rootIdent(x.Args[0]); root != nil {
-								if fld, ok := alias[root.Name]; ok {
-									facts = append(facts, mkFact(dir, fn, "recv-store", fld+" (copy via "+root.Name+")"))
-								}
-							}
-						}
-						sel, ok := x.Fun.(*ast.SelectorExpr)
-						if !ok {
-							break
-						}
-						// mutating container methods on a package-level variable (sync.Map, custom caches) outside init
-						if id, ok := sel.X.(*ast.Ident); ok && !isInit {
-							switch sel.Sel.Name {
-							case "Store", "LoadOrStore", "LoadAndDelete", "Delete", "Swap", "CompareAndSwap", "CompareAndDelete", "Clear", "Put", "Set":
-								if o := info.Uses[id]; o != nil && globals[o] {
-									facts = append(facts, mkFact(dir, fn, "global-store", id.Name+"."+sel.Sel.Name+"()"))
-								}
-							}
-						}
-						// r.f.M(...) with f of a stateful type;  also global.M(...)
-						tv, ok := info.Types[sel.X]
-						if !ok || tv.Type == nil {
-							break
-						}
-						ts := tv.Type.String()
-						if !(statefulIface[ts] || statefulPtr[ts]) || pureMethods[sel.Sel.Name] {
-							break
-						}
-						if recv != "" {
-							if rid, fld := rootSel(sel.X); rid != nil && rid.Name == recv {
-								facts = append(facts, mkFact(dir, fn, "recv-stateful-call", fld+"."+sel.Sel.Name+" : "+ts))
-								break
-							}
-							if id, ok := sel.X.(*ast.Ident); ok {
-								if fld, ok := alias[id.Name]; ok {
-									facts = append(facts, mkFact(dir, fn, "recv-stateful-call", fld+"."+sel.Sel.Name+" : "+ts+" (via "+id.Name+")"))
-									break
-								}
-							}
-						}
-						if id, ok := sel.X.(*ast.Ident); ok {
-							if o := info.Uses[id]; o != nil && globals[o] && !isInit {
-								facts = append(facts, mkFact(dir, fn, "global-stateful-call", id.Name+"."+sel.Sel.Name+" : "+ts))
-							}
-						}
-					}
-					return true
-				})
-			}
-		}
-		for _, e := range escapes {
-			if inPlace[e.owner] {
-				e.owner = ""
-				facts = append(facts, e)
-			}
-		}
-	})
-	emitFacts(out, "TinkVerif.Gen.MutFacts", "Syntactic facts about post-construction writes: stores through method receivers, calls on receiver-held stateful objects, stores to package-level variables (C18).", facts, npk, true)
-}
+	"ConstantTimeCompare": true, "Keys": true, "Values": true, "EncodeToString": true, "Sprintf": true, "Errorf": true, "min": true, "max": true,
+	"IndexFunc": true, "ContainsFunc": true, "EqualFunc": true, "BinarySearch": true, "BinarySearchFunc": true, "IsSorted": true, "IsSortedFunc": true,
+	"Max": true, "Min": true, "MaxFunc": true, "MinFunc": true, "HasPrefix": true, "HasSuffix": true, "Count": true, "Sprint": true, "Sprintln": true,
+	"Marshal": true, "Size": true, "DeepEqual": true}
